@@ -73,7 +73,14 @@ def handle (req : Json) : Json :=
       | .ok m => Json.mkObj [("inputs", vinfos m.inputs), ("outputs", vinfos m.outputs),
                               ("outVars", toJson m.outVars)]
       | .error e => Json.mkObj [("err", errName e)]
-    return Json.mkObj [("res", res), ("names", Json.arr names.toArray),
+    -- `Front.NoClash` (side condition of inputs_dropped_noclash / missing_input_keyerror_noclash), evaluated:
+    -- no unlisted object carries a name that is a key of `inputs` or a requested output name
+    let noclash := (List.range objs.length).all (fun v =>
+      ins.any (fun e => e.obj == v) ||
+      (match store v with
+       | none => true
+       | some n => !(ins.any (fun e => e.name == n)) && !(outs.any (fun e => e.name == n))))
+    return Json.mkObj [("res", res), ("names", Json.arr names.toArray), ("noclash", Json.bool noclash),
                        ("free", toJson (freeArgs P outs)), ("wf", Json.bool (wfb P))]) with
   | .ok j => j
   | .error e => Json.mkObj [("error", e)]
